@@ -3,6 +3,7 @@ package rules
 import (
 	"fmt"
 	"go/token"
+	"go/types"
 	"sort"
 	"strings"
 
@@ -25,6 +26,34 @@ func runC09(c *Ctx) {
 	})
 	c.checkReverseMatched()
 	c.checkGapRecurrence()
+	L.Rule("match-mode", "without a substitution matrix matchScore compares the two residues (its uint8 parameters) and returns the match score exactly when they are equal; with a matrix it returns submatrix[i1][i2]")
+	if r := c.fn("align", "*pwaligner", "matchScore"); r.ok() {
+		fn := r.F
+		okCmp, okIdx := false, false
+		allInstrs(fn, func(in ssa.Instruction) {
+			switch x := in.(type) {
+			case *ssa.BinOp:
+				if x.Op == token.NEQ || x.Op == token.EQL {
+					px, okx := x.X.(*ssa.Parameter)
+					py, oky := x.Y.(*ssa.Parameter)
+					if okx && oky && px != py && isUint8(px.Type()) && isUint8(py.Type()) {
+						okCmp = true
+					}
+				}
+			case *ssa.IndexAddr:
+				if p, ok := x.Index.(*ssa.Parameter); ok && isIntType(p.Type()) && !isUint8(p.Type()) {
+					okIdx = true
+				}
+			}
+		})
+		L.Check(okCmp && okIdx, "match-mode", r.label, "residue comparison / matrix lookup", c.P.Pos(fn.Pos()), "compares c1 with c2; indexes the matrix with i1, i2", fmt.Sprintf("matchScore no longer compares the two residues themselves (residue comparison: %v, matrix lookup by index: %v): distinct characters sharing a matrix index would count as matches", okCmp, okIdx))
+	}
+	L.Floor("match-mode", 1, "one function")
+}
+
+func isUint8(t types.Type) bool {
+	b, ok := t.Underlying().(*types.Basic)
+	return ok && b.Kind() == types.Uint8
 }
 
 func (c *Ctx) checkSubstMatrices() {
@@ -499,8 +528,46 @@ func (c *Ctx) checkGapRecurrence() {
 			det2 = fmt.Sprintf("selection between extended and opened value under `opened > extended`: %v", good)
 		}
 	}
+	// the running horizontal value is re-initialised for every row: its value on entry of the
+	// column loop does not come from the previous row's loop (no outer loop-carried dependence)
+	okInit := false
+	detInit := "no running horizontal-gap value found"
+	for _, in := range main.Head.Instrs {
+		p, ok := in.(*ssa.Phi)
+		if !ok || !isFloatValue(p) {
+			continue
+		}
+		for i, e := range p.Edges {
+			if main.Blocks[main.Head.Preds[i]] {
+				continue
+			}
+			// entry value
+			isGapState := false
+			for k, e2 := range p.Edges {
+				if main.Blocks[main.Head.Preds[k]] {
+					if sel, ok := e2.(*ssa.Phi); ok {
+						for _, se := range sel.Edges {
+							if old, ok := isExtendOf(se); ok && old == ssa.Value(p) {
+								isGapState = true
+							}
+						}
+					}
+				}
+			}
+			if !isGapState {
+				continue
+			}
+			deps := headerPhiDeps(fn, e)
+			okInit = len(deps) == 0
+			detInit = fmt.Sprintf("entry value of the column loop depends on %d loop-carried value(s) of the row loop", len(deps))
+			if bo, ok := e.(*ssa.BinOp); ok {
+				_ = bo
+			}
+		}
+	}
+	L.Check(okInit, "gap-recurrence", r.label, "horizontal gap state starts afresh in every row", c.P.Pos(fn.Pos()), "initialised from the row's first cell before the column loop", "the horizontal-gap value of one row leaks into the next row: "+detInit)
 	L.Check(okReg, "gap-recurrence", r.label, "horizontal gap state", c.P.Pos(fn.Pos()), "bx += gapextend; if matrix[i][j-1]+gapopen > bx { bx = that }", "the horizontal-gap recurrence is not max(extended, opened): "+det2)
-	L.Floor("gap-recurrence", 2, "two directions")
+	L.Floor("gap-recurrence", 3, "two directions + per-row initialisation")
 }
 
 func isMatrixCellLoad(v ssa.Value) bool {
